@@ -5,3 +5,4 @@ import FastraceModel.Props.C12
 import FastraceModel.Props.C20
 import FastraceModel.Driver.Codec
 import FastraceModel.Driver.Report
+import FastraceModel.Props.C19
